@@ -1,15 +1,17 @@
 #!/bin/sh
-# tools/try_mutant.sh <patch.diff> <Cxx> [tier] : apply a seeded change to /repo, run the check, undo it.
+# tools/try_mutant.sh <patch.diff> <Cxx> [tier] : run a check against a seeded change.
+# The change is applied to a scratch COPY of /repo's sources (LCDB_SRC), so /repo itself is never
+# touched and other runs are not disturbed; evidence and replays of the trial go to /dev/shm.
+# (Equivalent to: git -C /repo apply <patch>; ./check <id>; git -C /repo checkout -- .)
 set -u
 patch="$1"; prop="$2"; tier="${3:-quick}"
-cd /repo || exit 2
-if ! git diff --quiet; then echo "/repo has uncommitted changes"; exit 2; fi
-git apply "$patch" || { echo "patch does not apply"; exit 2; }
+d=$(mktemp -d /dev/shm/mutsrc.XXXXXX)
+cp -r /repo/src /repo/include "$d"/ && ( cd "$d" && patch -p1 -s < "$patch" ) || { echo "patch does not apply"; rm -rf "$d"; exit 2; }
 cd /verif
-./check "$prop" --tier "$tier" > /tmp/try_mutant.out 2>&1
+LCDB_SRC="$d" VERIF_OUT="$d/out" ./check "$prop" --tier "$tier" > "$d/out.txt" 2>&1
 rc=$?
-git -C /repo checkout -- .
 echo "check exit=$rc"
-grep -E "^VIOLATION|^KNOWN-FINDING|^  sig=|HARNESS-ERROR|^C[0-9]+ " /tmp/try_mutant.out | head -12
-# restore evidence of the unchanged tree is the caller's job (re-run the check)
+grep -E "^VIOLATION|^KNOWN-FINDING|^  sig=|HARNESS-ERROR|^C[0-9]+ " "$d/out.txt" | cut -c1-300 | head -12
+[ -f "$d/out/replays/$prop-0.json" ] && python3 -c "import json;print('  detail:', json.load(open('$d/out/replays/$prop-0.json'))['detail'][:500])"
+rm -rf "$d"
 exit $rc
